@@ -8,6 +8,7 @@
 mod common;
 mod driver;
 mod findings;
+mod interp;
 mod libtier;
 mod model;
 mod gen;
@@ -21,8 +22,10 @@ mod props {
     pub mod c01;
     pub mod c02;
     pub mod c03;
+    pub mod c14;
     pub mod c17;
     pub mod c19;
+    pub mod c20;
 }
 
 use driver::{harness_error, Env};
@@ -99,8 +102,10 @@ fn main() {
             "C01" => props::c01::replay(&env, &v.replay),
             "C02" => props::c02::replay(&env, &v.replay),
             "C03" => props::c03::replay(&env, &v.replay),
+            "C14" => props::c14::replay(&env, &v.replay),
             "C17" => props::c17::replay(&env, &v.replay),
             "C19" => props::c19::replay(&env, &v.replay),
+            "C20" => props::c20::replay(&env, &v.replay),
             _ => harness_error(&format!("no replayer for {cmd}")),
         }
     } else {
@@ -108,8 +113,10 @@ fn main() {
             "C01" => props::c01::run(&env),
             "C02" => props::c02::run(&env),
             "C03" => props::c03::run(&env),
+            "C14" => props::c14::run(&env),
             "C17" => props::c17::run(&env),
             "C19" => props::c19::run(&env),
+            "C20" => props::c20::run(&env),
             _ => harness_error(&format!("unknown command {cmd}")),
         }
     };
